@@ -9,6 +9,7 @@ Sentence 2 (optimal cost) is validated per scene by a certificate; the theorems 
 soundness of that certificate check (potential argument).
 -/
 import AdaptaVerif.Lemmas.Bends
+import AdaptaVerif.Lemmas.BendsTight
 import AdaptaVerif.Lemmas.Hanan
 import Mathlib.Tactic.NormNum
 namespace AdaptaVerif.Props.C05
@@ -36,6 +37,12 @@ example : IsApproach ⟨0, 0⟩ .N ⟨1, 1⟩ .E
   · norm_num [dispX, Dir.ux]
   · norm_num [dispY, Dir.uy]
   · rw [Lemmas.Bends.bends_tbl]; norm_num [dimDirection]; decide
+
+/-- **Tight.** The bound is attained: some approach path has exactly `bends …` bends, so the code's
+    closed form is the exact minimum (under the leg-length conventions of `Spec.OrthPath`). -/
+theorem bends_tight (curr dest : Pt) (hne : curr ≠ dest) (cd dd : Dir) :
+    ∃ ls, IsApproach curr cd dest dd ls ∧ bends curr cd.mask dest dd.mask = some (bendsOf ls) :=
+  Lemmas.BendsTight.tight curr dest hne cd dd
 
 /-- **Total.** For single-bit directions no `COLA_ASSERT` inside `bends` can fire — in particular
     the trailing `COLA_ASSERT(false)` is unreachable — and the result is at most 4.
